@@ -142,6 +142,9 @@ def corpus_variants(prop):
         for d in sorted(os.listdir(sd)):
             pth = os.path.join(sd, d, "patch.diff")
             if d.split("-")[0] == prop and os.path.isfile(pth):
+                meta = os.path.join(sd, d, "meta.json")
+                if os.path.isfile(meta) and '"status": "obsolete' in open(meta, encoding="utf-8").read():
+                    continue  # overtaken by a later fix: in meta.json
                 with open(pth, encoding="utf-8") as fh:
                     out.append(D("seed:" + d, "mutant", fh.read()))
     bd = os.path.join(root, "benign")
